@@ -135,6 +135,12 @@ def gen_recent_case(rng: random.Random, tier: str, backends=('dict',)) -> dict:
                 acts.append({'sess': sess, 'kind': 'noop'})
             else:
                 acts.append({'sess': sess, 'kind': 'expunge'})
+        if cfg['backend'] == 'maildir' and rng.random() < 0.2:
+            tok = tokens.take()
+            acts.append({'kind': 'deliver', 'mailbox': 'INBOX',
+                         'data': make_message(tok), 'token': tok,
+                         'subdir': rng.choice(['new', 'new', 'cur']),
+                         'at': rng.choice([0, rng.randint(1, 60)])})
         steps.append({'actions': acts, 'sched_seed': maybe_seed(rng, 0.3)})
     # final: everyone still selected refreshes its view
     steps.append({'actions': [{'sess': i, 'kind': 'fetch', 'uid': False,
@@ -178,6 +184,52 @@ def check_exclusive(ctx) -> None:
                         '\\Recent to %d read-write selections: %s'
                         % (key[2], key[0], len(who), sorted(who)))
             return
+
+
+def check_readonly_consume(ctx) -> None:
+    """A read-only selection that is shown \\Recent for a message has not
+    consumed it: some read-write selection is shown it too.  Decided only
+    when every read-write selection alive after that moment (the fresh one
+    opened at the end included) reported the message's flags afterwards."""
+    end_of_time = ctx.world.seq + 1
+    ro_seen: dict = {}          # uid -> first tick a read-only sel saw it
+    rw_obs: dict = {}           # id(sel) -> {uid: [(tick, recent)]}
+    rw_sels = []
+    for cl in ctx.all_clients:
+        for sel in cl.shadow.sel_log:
+            if sel['mailbox'] == 'INBOX' and not sel['readonly']:
+                rw_sels.append(sel)
+        for sel, slot, recent, tick in cl.shadow.flag_obs:
+            if sel.get('mailbox') != 'INBOX' or slot.uid is None:
+                continue
+            if sel['readonly']:
+                if recent and (slot.uid not in ro_seen
+                               or tick < ro_seen[slot.uid]):
+                    ro_seen[slot.uid] = tick
+            else:
+                rw_obs.setdefault(id(sel), {}).setdefault(
+                    slot.uid, []).append((tick, recent))
+    for uid, t0 in sorted(ro_seen.items()):
+        anyone = False
+        conclusive = True
+        for sel in rw_sels:
+            obs = rw_obs.get(id(sel), {}).get(uid, [])
+            if any(r for _, r in obs):
+                anyone = True
+                break
+            if (sel['end'] or end_of_time) < t0:
+                continue        # gone before, and never saw it
+            if not any(t > t0 for t, _ in obs):
+                conclusive = False
+        if anyone or not conclusive or not rw_sels:
+            continue
+        if not any((sel['end'] or end_of_time) >= t0 for sel in rw_sels):
+            continue
+        ctx.stat('readonly_recent_checked')
+        ctx.violate('C17', 'recent-consumed-readonly', 'UID %d was shown '
+                    '\\Recent to a read-only selection and to no read-write '
+                    'selection, not even the one opened at the end' % uid)
+        return
 
 
 def check_first_select(ctx) -> None:
@@ -268,7 +320,10 @@ class C17(Profile):
             'SEARCH RECENT) while a deliverer that never selects INBOX and '
             'the sessions themselves APPEND/COPY/MOVE into it (flag lists may '
             'name \\Recent) and STORE +/-/= \\Recent; 6-30 steps, up to 3 '
-            'sessions per step; weak-set (any_selected) order permuted. '
+            'sessions per step; weak-set (any_selected) order permuted; at '
+            'the end a fresh session SELECTs read-write and fetches all '
+            'flags (a message shown \\Recent only to read-only selections '
+            'was consumed by one). '
             'Non-trivial = two or more sessions with commands in flight in '
             'one step.')
     assumptions = C01.assumptions + [
@@ -288,8 +343,20 @@ class C17(Profile):
             check_counts(ctx)
 
         def at_end(ctx):
+            # one more read-write SELECT by a fresh session: whatever is
+            # still unclaimed shows up here
+            last = 50
+            for act in ({'kind': 'connect'},
+                        {'kind': 'login', 'user': USER['name'],
+                         'password': USER['password']},
+                        {'kind': 'select', 'mailbox': 'INBOX'},
+                        {'kind': 'fetch', 'uid': False, 'set': '1:*',
+                         'attrs': ['UID', 'FLAGS'], 'post_select': True}):
+                ctx.run_step({'actions': [dict(act, sess=last)],
+                              'sched_seed': None}, len(case['steps']))
             check_exclusive(ctx)
             check_first_select(ctx)
+            check_readonly_consume(ctx)
             dump = ctx.probe('INBOX')
             if dump:
                 for uid, rec in dump['msgs'].items():
